@@ -41,13 +41,12 @@ IntR(k) == <<"int", ToString(k)>>
 InRange(op, s, c) ==
   CASE op.k = "fwd" -> op.a >= 0 /\ c + op.a <= Len(s)
     [] op.k = "back" -> op.a >= 0 /\ c - op.a >= 0
-    [] op.k = "peek" -> c + op.a >= 0
-    [] op.k = "peekr" -> c + op.a >= 0 /\ op.a <= op.b
+    [] op.k = "peekr" -> op.a <= op.b
     [] op.k = "has" -> op.a >= 1
     [] op.k = "slice" -> op.a >= 0 /\ op.a <= op.b
     [] op.k = "tail" -> op.a >= 0
     [] op.k = "index" -> op.a >= 0
-    [] op.k = "ew" -> c - Len(op.s) >= 0
+    [] op.k = "head" -> op.a >= 0
     [] OTHER -> TRUE
 
 (* [c |-> new cursor, r |-> result] *)
@@ -55,12 +54,14 @@ Apply(op, s, c) ==
   CASE op.k = "next" -> IF c < Len(s) THEN [c |-> c + 1, r |-> Ret(s[c+1])] ELSE [c |-> c, r |-> Exc("StopIteration")]
     [] op.k = "fwd" -> [c |-> c + op.a, r |-> Ret(Concat(Clip(s, c, c + op.a)))]
     [] op.k = "back" -> [c |-> c - op.a, r |-> Ret(Concat(Clip(s, c - op.a, c)))]
-    [] op.k = "peek" -> [c |-> c, r |-> IF c + op.a < Len(s) THEN Ret(s[c + op.a + 1]) ELSE NoneR]
+    \* looking before the start is like looking past the end: None / a shorter result (clamped), never an item from the other end
+    [] op.k = "peek" -> [c |-> c, r |-> IF c + op.a >= 0 /\ c + op.a < Len(s) THEN Ret(s[c + op.a + 1]) ELSE NoneR]
     [] op.k = "peekr" -> [c |-> c, r |-> Ret(Concat(Clip(s, c + op.a, c + op.b)))]
     [] op.k = "has" -> [c |-> c, r |-> BoolR(c + op.a - 1 < Len(s))]
     [] op.k = "slice" -> [c |-> c, r |-> Ret(Concat(Clip(s, op.a, op.b)))]
     [] op.k = "tail" -> [c |-> c, r |-> Ret(Concat(Clip(s, op.a, Len(s))))]
     [] op.k = "index" -> [c |-> c, r |-> IF op.a < Len(s) THEN Ret(s[op.a + 1]) ELSE Exc("IndexError")]
+    [] op.k = "head" -> [c |-> c, r |-> Ret(Concat(Clip(s, 0, op.a)))]                   \* buf[:a]: from the beginning of the data, not from the cursor
     [] op.k = "sw" -> [c |-> c, r |-> BoolR(IsPrefix(op.s, Concat(Clip(s, c, c + Len(op.s)))))]
     [] op.k = "ew" -> [c |-> c, r |-> BoolR(IsSuffix(op.s, Concat(Clip(s, c - Len(op.s), c))))]
     [] op.k = "fu" -> LET e == FirstAt(s, c, op.s) IN [c |-> e, r |-> Ret(Concat(Clip(s, c, e)))]
@@ -84,7 +85,7 @@ View == <<seq, i, prev.k, last>>    \* one witness path per (state, kind of the 
 View1 == <<seq, i, last>>           \* one witness path per (state, op)
 
 (* ---- the property, as invariants / action properties of the model ---- *)
-Reads == {"peek", "peekr", "has", "slice", "tail", "index", "sw", "ew", "nfu"}
+Reads == {"peek", "peekr", "has", "slice", "tail", "head", "index", "sw", "ew", "nfu"}
 CursorInRange == 0 <= i /\ i <= Len(seq)
 ReadsDoNotMove == [][last'.op.k \in Reads => i' = i]_bvars
 ExhaustionIsReported ==      \* past the end: StopIteration / None / shorter result, never another failure
